@@ -203,7 +203,45 @@ namespace hs
             void* bad  = nullptr;
             char  local[64];
             const char* desc = "";
-            switch (pos == 5 ? 3 : pos)
+            if (pos == 5)
+            {
+                // the address directly behind the last node of the highest chunk: take every free node first (no
+                // growth), then the highest live node is the last node of its chunk
+                std::snprintf(what, sizeof what, "%s: deallocate_node(the address directly behind the last node of "
+                                                 "a chunk)",
+                              S->o->name.c_str());
+                auto o = in_child(
+                    [&]
+                    {
+                        // (plain calls, no model: only the highest address matters here)
+                        char* top = nullptr;
+                        shadow_.for_each(
+                            [&](Alloc& a)
+                            {
+                                if (a.obj == 0 && (!top || a.p > top))
+                                    top = a.p;
+                            });
+                        heap.begin_op(0);
+                        for (int i = 0; i < 4000 && S->o->reading(0) >= ns; ++i)
+                        {
+                            Req         r{MEMBER, false, 1, ns, 1};
+                            std::size_t usable = 0;
+                            auto        p      = static_cast<char*>(S->o->allocate(r, usable));
+                            if (p > top)
+                                top = p;
+                        }
+                        if (!top || S->o->reading(0) >= ns)
+                            _exit(42); // (nothing to try: nothing to judge)
+                        auto before       = snapshot();
+                        g_state_unchanged = [&] { return snapshot() == before; };
+                        Req r{MEMBER, false, 1, ns, 1};
+                        heap.begin_op(0);
+                        S->o->deallocate(r, top + ns);
+                    });
+                judge_death(o, what);
+                return;
+            }
+            switch (pos)
             {
             case 4:
             {
